@@ -4,8 +4,8 @@
    the route covers position x, tail-end sets extended by the train length" (explicit form:
    C13_posted_explicit in props/C13.v). *)
 From Coq Require Import Reals List Bool ZArith Lra.
-From AltModel Require Import Num SpeedPoints PathGeom.
-From AltProofs Require Import NumR SpeedPointsP PathGeomP.
+From AltModel Require Import Num SpeedPoints PathGeom TrainCfg.
+From AltProofs Require Import NumR SpeedPointsP PathGeomP TrainCfgP.
 Import ListNotations.
 Open Scope R_scope.
 
@@ -52,3 +52,24 @@ Check C02_profile_safe : forall (net : list LinkR) (tp : TPR) parts (q : PathR) 
 Example C02_hypotheses_satisfiable :
   (exists q, extend_many Ex.ex_net (new_path Ex.ex_tp) [[1%Z]] = Ok q) /\ route_ok Ex.ex_net Ex.ex_tp (concat [[1%Z]]).
 Proof. exact ex_hyps. Qed.
+
+(* ---- "the train's own maximum speed": a train is described by its configuration (vehicle types and the number
+   of cars of each); TrainConfig::make_train_params (coq/model/TrainCfg.v) computes the parameters PathTpc::new
+   receives.  [present rv] := the train has at least one car of type rv. ---- *)
+
+(* the train's maximum speed is at most that of every vehicle type present, and is attained by one of them *)
+Theorem C02_train_speed_max_is_min_over_present_vehicles : forall (rvs : list (RV (F:=R))) ttype tm tl (tp : TPR),
+  make_train_params rvs ttype tm tl = Ok tp ->
+  (exists rv, In rv rvs /\ present rv) ->
+  (forall rv, In rv rvs -> present rv -> tp_speed_max tp <= rv_speed_max rv) /\
+  (exists rv, In rv rvs /\ present rv /\ tp_speed_max tp = rv_speed_max rv).
+Proof. exact cfg_speed_max_is_min. Qed.
+
+(* hence the enforced profile never exceeds the maximum speed of ANY vehicle in the train *)
+Theorem C02_profile_safe_for_configured_train :
+  forall (rvs : list (RV (F:=R))) ttype tm tl (tp : TPR) (net : list LinkR) parts (q : PathR) x rv,
+  make_train_params rvs ttype tm tl = Ok tp ->
+  extend_many net (new_path tp) parts = Ok q -> route_ok net tp (concat parts) -> 0 <= x ->
+  In rv rvs -> present rv ->
+  eval_speed (p_speed_points q) x <= rv_speed_max rv.
+Proof. exact config_profile_safe. Qed.
